@@ -205,7 +205,7 @@ def gen_one_negative(rng):
     neg = rng.randrange(1, m)
     c[neg] = F(-rng.choice([1, 2, 4, 8]), rng.choice([1, 2]))
     c[0] = F(rng.choice([1, 2, 4, 8, 12]), rng.choice([1, 2]))
-    return rm.sig_leaf(rows, c), rm.gen_box(rng, n)
+    return rm.sig_leaf(rows, c), rm.gen_box(rng, n, eqfirst=True)
 
 
 def stream_boxes(ctx, rng, N, seen_boxes):
@@ -281,6 +281,13 @@ def transform_linear(rng, leaf):
     else:
         k = rng.randint(-2, 2)
         M = rng.choice([[[F(1), F(k)], [F(0), F(1)]], [[F(1), F(0)], [F(k), F(1)]], [[F(0), F(1)], [F(1), F(0)]], [[F(1), F(k)], [F(0), F(-1)]]])
+    if rng.random() < 0.4:
+        # invertible, not unimodular: a change of units (also a drastic one: exponents of size 1e-4, exact in 7 decimals)
+        sc = rng.choice([F(1, 2), F(3), F(1, 100), F(1, 20000), F(1, 50000)])
+        M2 = [[x * sc for x in row] for row in M]
+        rows2 = [[sum(F(r[i]) * M2[i][j] for i in range(n)) for j in range(n)] for r in leaf['alpha']]
+        if all((x * 10 ** 7).denominator == 1 for r in rows2 for x in r):
+            M = M2            # (the constructor rounds exponents to 7 decimals: only changes that survive it exactly are the same function)
     rows = [[sum(F(r[i]) * M[i][j] for i in range(n)) for j in range(n)] for r in leaf['alpha']]
     return dict(leaf, alpha=[[frac_str(x) for x in r] for r in rows])
 
@@ -338,7 +345,7 @@ def stream_invariance(ctx, rng, N):
             ctx.count('invariance:' + name)
             if not close(v0, v1, 1e-4):
                 ctx.violation('invariance: the level-0 bound %.8g changes to %.8g after %s' % (v0, v1,
-                              {'perm': 'permuting the terms', 'linear': 'a unimodular change of variables', 'translate': 'translating x'}[name]),
+                              {'perm': 'permuting the terms', 'linear': 'an invertible linear change of variables', 'translate': 'translating x'}[name]),
                               {'stream': 'invariance', 'leaf': leaf, 'transformed': g, 'transform': name})
                 break
             # cover helper of the transformed copy vs the model
